@@ -50,6 +50,12 @@ func (p *Prog) d(v ssa.Value, depth int, seen map[ssa.Value]bool) string {
 	defer delete(seen, v)
 	switch x := v.(type) {
 	case *ssa.Alloc:
+		// a spilled parameter (address taken): the variable is the parameter
+		if st := p.singleStore(x); st != nil {
+			if prm, ok := st.Val.(*ssa.Parameter); ok {
+				return "&" + prm.Name()
+			}
+		}
 		return "&" + p.allocName(x)
 	case *ssa.ChangeType:
 		return p.d(x.X, depth, seen)
@@ -109,8 +115,16 @@ func (p *Prog) d(v ssa.Value, depth int, seen map[ssa.Value]bool) string {
 			return "^" + p.d(x.X, depth+1, seen)
 		}
 	case *ssa.BinOp:
+		if isRangeIndexPhi(x.X) && x.Op == token.ADD {
+			if k, ok := x.Y.(*ssa.Const); ok && k.Value != nil && k.Value.ExactString() == "1" {
+				return "ι" // the index of a `for i := range s` loop
+			}
+		}
 		return "(" + p.d(x.X, depth+1, seen) + " " + x.Op.String() + " " + p.d(x.Y, depth+1, seen) + ")"
 	case *ssa.Phi:
+		if isRangeIndexPhi(x) {
+			return "ι-1"
+		}
 		var parts []string
 		set := map[string]bool{}
 		for _, e := range x.Edges {
@@ -418,4 +432,14 @@ func calleeFullName(c *ssa.CallCommon) string {
 		return b.Name()
 	}
 	return ""
+}
+
+// isRangeIndexPhi: the hidden counter of a range-over-slice loop (phi [-1, counter+1]).
+func isRangeIndexPhi(v ssa.Value) bool {
+	phi, ok := v.(*ssa.Phi)
+	if !ok || phi.Block().Comment != "rangeindex.loop" || len(phi.Edges) != 2 {
+		return false
+	}
+	k, ok := phi.Edges[0].(*ssa.Const)
+	return ok && k.Value != nil && k.Value.ExactString() == "-1"
 }
